@@ -610,7 +610,7 @@ func ruleGroupTimerIdiom(c *Ctx, r *R) {
 
 var _ = late(func() {
 	p := properties["C17"]
-	p.Rules = append(p.Rules, &Rule{ID: "C17.timer-rearmed", Floor: 2, Clause: "in Periodic and PeriodicOrTrigger the timer is re-armed (Reset) on every path from the select to the next run of f: a path that only drains the timer leaves the periodic schedule dead and the next trigger blocked on an empty timer channel",
+	p.Rules = append(p.Rules, &Rule{ID: "C17.timer-rearmed", Floor: 4, Clause: "in Periodic and PeriodicOrTrigger the timer is re-armed (Reset) on every path from the select to the next run of f: a path that only drains the timer leaves the periodic schedule dead and the next trigger blocked on an empty timer channel",
 		Run: func(c *Ctx, r *R) {
 			ws := groupWorkers(c)
 			defer rebindWorker(nil)
@@ -648,6 +648,67 @@ var _ = late(func() {
 				pf.Exits(w, ss(1))
 				if k == 0 {
 					r.violated("xsync.Group."+n+"|rearmed-before-f", w.Pos(), "no call of f found")
+				}
+				// ... and whenever the worker waits for the timer, the timer is armed: every tick taken off t.C (by the select, by a
+				// drain, by a non-blocking "drop a stale tick" receive) is followed by a Reset before the next wait. 0 = not armed
+				// (tick consumed / stopped), 1 = armed
+				isTimerC := func(v ssa.Value) bool { k, _ := classifyChan(v); return k == "timer" }
+				pa := &PF{N: 2, DeepVisit: true, InScope: pf.InScope}
+				pa.Instr = func(f *ssa.Function, in ssa.Instruction, q int) (StateSet, bool) {
+					switch x := in.(type) {
+					case *ssa.Call:
+						if cal := x.Call.StaticCallee(); cal != nil && cal.Pkg != nil && cal.Pkg.Pkg.Path() == "time" {
+							isT := cal.Signature.Recv() != nil && isNamedType(cal.Signature.Recv().Type(), "time", "Timer")
+							switch {
+							case fname(cal) == "NewTimer", fname(cal) == "Reset" && isT:
+								return ss(1), true
+							case fname(cal) == "Stop" && isT:
+								return ss(0), true
+							}
+						}
+					case *ssa.UnOp:
+						if x.Op == token.ARROW && isTimerC(x.X) {
+							return ss(0), true
+						}
+					}
+					return 0, false
+				}
+				pa.Edge = func(f *ssa.Function, g guard, q int) (StateSet, bool) {
+					cf, ok := g.asCmp()
+					if !ok || cf.op != token.EQL {
+						return 0, false
+					}
+					ex, ok := cf.x.(*ssa.Extract)
+					if !ok || ex.Index != 0 {
+						return 0, false
+					}
+					sel, ok := ex.Tuple.(*ssa.Select)
+					kc, isK := cf.y.(*ssa.Const)
+					if !ok || !isK || kc.Value == nil {
+						return 0, false
+					}
+					idx := int(kc.Int64())
+					if idx >= 0 && idx < len(sel.States) && sel.States[idx].Dir == types.RecvOnly && isTimerC(sel.States[idx].Chan) {
+						return ss(0), true // this arm took the tick
+					}
+					return 0, false
+				}
+				nw := 0
+				pa.Visit = func(f *ssa.Function, in ssa.Instruction, before StateSet) {
+					sel, ok := in.(*ssa.Select)
+					if !ok || !sel.Blocking {
+						return
+					}
+					for _, st := range sel.States {
+						if st.Dir == types.RecvOnly && isTimerC(st.Chan) {
+							nw++
+							r.ok(!before.has(0), "xsync.Group."+n+"|armed-at-wait#"+itoa(nw), sel.Pos(), "the worker can reach this wait for the timer on a path on which the last tick was taken off the timer's channel (or the timer was stopped) and the timer has not been re-armed since: the periodic schedule is dead until the group stops")
+						}
+					}
+				}
+				pa.Exits(w, ss(0))
+				if nw == 0 {
+					r.undecided("xsync.Group."+n+"|armed-at-wait", w.Pos(), "no wait on the timer found")
 				}
 			}
 		}})
